@@ -81,8 +81,26 @@ func r4parser(c *core.Ctx) {
 		}
 	}
 	for _, fn := range []string{pAper + ".perRawBitData.makeField", pAper + ".parseField"} {
-		k := tagKeys[fn]
-		c.Check(producers[fn] >= 1 && len(k) == 1 && k["aper"], R, shortName(fn)+":tag-source", token.NoPos, "parseFieldParameters(Tag.Get(\"aper\"))", "%s must read the constraints of every struct field with parseFieldParameters(field.Tag.Get(\"aper\")); tag keys used: %v", shortName(fn), k)
+		// the direction's walker and the helpers of the package it reaches (a SEQUENCE walker moved
+		// into a function of its own reads the tags there)
+		k := map[string]bool{}
+		nProd := 0
+		short := strings.TrimPrefix(fn, pAper+".")
+		if entry := c.P.Func(pAper, short); entry != nil {
+			for g := range staticReach(entry) {
+				if fnPkgPath(g) != pAper {
+					continue
+				}
+				gn := core.FuncName(g)
+				nProd += producers[gn]
+				for key := range tagKeys[gn] {
+					k[key] = true
+				}
+			}
+		} else {
+			k, nProd = tagKeys[fn], producers[fn]
+		}
+		c.Check(nProd >= 1 && len(k) == 1 && k["aper"], R, shortName(fn)+":tag-source", token.NoPos, "parseFieldParameters(Tag.Get(\"aper\"))", "%s must read the constraints of every struct field with parseFieldParameters(field.Tag.Get(\"aper\")); tag keys used: %v", shortName(fn), k)
 	}
 	for _, fn := range []string{pAper + ".MarshalWithParams", pAper + ".UnmarshalWithParams"} {
 		c.Check(producers[fn] == 1, R, shortName(fn)+":top-level", token.NoPos, "top-level params through the same parser", "%s must parse its top-level parameter string with parseFieldParameters", shortName(fn))
@@ -550,6 +568,10 @@ func r4seqof(c *core.Ctx) {
 	const R = "R4.seqof"
 	c.Rule(R, "SEQUENCE OF: count = decoded value + lowerBound on the constrained branches only; raw count octet on the semi-constrained branch (mirror of the encoder)")
 	dec := mustFunc(c, pAper, "perBitData.parseSequenceOf")
+	if r4seqofDecX(c, R) {
+		r4seqofEnc(c, R)
+		return
+	}
 	p := core.NewPather(dec)
 	var n string
 	for _, ci := range core.CallsTo(dec, "reflect.MakeSlice") {
@@ -573,7 +595,11 @@ func r4seqof(c *core.Ctx) {
 	}
 	c.Check(okRaw, R, "aper.parseSequenceOf(decode):semi-constrained-count", dec.Pos(), "count = the length octet", "on the semi-constrained branch the element count must be the octet read (the encoder writes the count itself there); count expression: %s", clip(n))
 	c.Check(okLB, R, "aper.parseSequenceOf(decode):constrained-count", dec.Pos(), "count = value + lowerBound", "on the constrained branch the element count must be the decoded value plus the lower bound; count expression: %s", clip(n))
-	// encoder mirror
+	r4seqofEnc(c, R)
+}
+
+// r4seqofEnc: the encoder mirror of R4.seqof.
+func r4seqofEnc(c *core.Ctx, R string) {
 	enc := mustFunc(c, pAper, "perRawBitData.parseSequenceOf")
 	pe := core.NewPather(enc)
 	okSub, okRawE := false, false
